@@ -1,6 +1,7 @@
 import NanoVerif.Model.Proto
 import NanoVerif.Model.Bundle
 import NanoVerif.Model.Ellipsoid
+import NanoVerif.Model.BundleSolver
 /-!
   driver families `bundle` and `ellipsoid` (C03): trace replay.
 
@@ -11,7 +12,7 @@ import NanoVerif.Model.Ellipsoid
   (wildcard for the comparator). The harness prints the same groups taken from the LOGGED post-states and decisions.
 -/
 namespace NanoVerif.Driver.Bundle
-open NanoVerif.Proto NanoVerif.Bundle NanoVerif.Ellipsoid
+open NanoVerif.Proto NanoVerif.Bundle NanoVerif.Ellipsoid NanoVerif.BundleSolver
 
 local instance : NatCast Float := ⟨Float.ofNat⟩
 
@@ -135,6 +136,10 @@ structure Ctx where
   x0 : List Float
   R : Float
   atStart : Bool
+  kind : Option Kind := none
+  miuLo : Float := 0.0
+  miuHi : Float := 0.0
+  minDot : Float := 0.0
 
 structure St where
   out : Array String := #[]
@@ -146,6 +151,20 @@ structure St where
   lastStatus : Option Nat := none
   ell : Option EllRec := none
   first : Bool := true
+  /-- the decision of the last `solver_t::done` as the model derives it: `some (some st)` = the loop broke with `st`,
+      `some none` = it went on, `none` = not derivable (margin / context outside the window) -/
+  lastDone : Option (Option EStatus) := none
+  /-- outer loop of RQB / FPBA, replayed from the logged oracle answers: `(y, gy, fy)` of the last curve-search pass, the
+      `t` it returned, the logged / the predicted proximity parameter, `bundle.gx()`, RQB's `Gn`, FPBA's sequence and the
+      value of the best state (`none` = not known inside this window) -/
+  lastIter : Option (List Float × List Float × Float) := none
+  lastT : Option Float := none
+  lastMiu : Option Float := none
+  miuPred : Option Float := none
+  bgx : Option (List Float) := none
+  gn : Option (List Float) := none
+  seq : Option (Seq Float) := none
+  sfx : Option Float := none
 
 def St.emit (st : St) (xs : List String) : St := { st with out := st.out ++ xs.toArray }
 def St.fail (st : St) : St := { st with ok := false }
@@ -218,6 +237,65 @@ def doAppend (c : Ctx) (b : BeginRec) (kept : List (Pair Float)) (st : St) : St 
   st.emit ["append", gI (if b.serious then 1 else 0), gL (pairsE mk), gS scaleA, gL (pairsS mk),
            gS scaleE, gL (pairsE post.pairs), gL (pairsS post.pairs), gB (simplex && below)]
 
+def fmaxF : Float := 1.7976931348623157e308
+
+/-- the branch `nu.dot(u) > min_dot_nuv` of `make_miu` is closer than the tolerance: the prediction is not compared -/
+def fragileMiu (miu t : Float) (nu xi : List Float) (minDot : Float) : Bool :=
+  let u := vaxpy (t / miu) nu xi
+  fabs (dot nu u - minDot) ≤ 1e-9 * (absdot nu u + fabs minDot) + 1e-300
+
+/-- `bundle.append.begin`: which call of the outer loop is this, with which point — predicted by the model of the outer
+    loops (`Model/BundleSolver.lean`) from the status / point / `t` of the curve search that just ended -/
+def doOuter (c : Ctx) (b : BeginRec) (st : St) : St :=
+  if st.first && c.atStart then
+    -- the constructor of the bundle: `append(x0, g0, f0, true)`; the proximity parameter, `Gn`, the sequence start here
+    { st.emit ["outer", gI 1, gL c.x0, gFq] with
+      bgx := some b.gy, gn := some b.gy, seq := some (Seq.init c.x0), sfx := some b.fy,
+      miuPred := some (miuInit b.gy b.fy c.eps0 c.miuLo c.miuHi) }
+  else
+    let unknown : St :=
+      -- context outside the window: re-synchronise what the record itself shows
+      if b.serious then
+        let g1 := smearedS c.n b.pairs b.alphas
+        { st.emit ["outer", gIq, "L ?", gFq] with bgx := some b.gy, gn := some g1, seq := none, sfx := none, miuPred := none }
+      else { st.emit ["outer", gIq, "L ?", gFq] with miuPred := st.lastMiu }
+    match st.lastStatus, st.lastIter, c.kind with
+    | some 3, some (y, _, fy), _ => { st.emit ["outer", gI 0, gL y, gF fy] with miuPred := st.lastMiu }
+    | some k, some (y, gy, fy), some kind =>
+      if k != 4 && k != 5 then unknown else
+      let descent := k == 4
+      match kind with
+      | .rqb =>
+        let gn1 := smearedS c.n b.pairs b.alphas
+        let miu' : Option Float :=
+          if !descent then st.lastMiu else
+          match st.lastMiu, st.lastT, st.bgx, st.gn with
+          | some miu, some t, some bg, some gn =>
+            let xi := vsub y b.x
+            let frag := [0.0, 0.5, 1.0].any (fun a1 => [0.0, 0.5, 1.0].any (fun a2 =>
+              fragileMiu miu t (nuComb a1 a2 gy gn1 bg gn) xi c.minDot))
+            if frag then none else some (proxUpdate2 fmaxF c.minDot miu t b.x y bg gy gn gn1)
+          | _, _, _, _ => none
+        { st.emit ["outer", gI 1, gL y, gF fy] with bgx := some gy, gn := some gn1, miuPred := miu' }
+      | _ =>
+        let two := kind == .fpba2
+        let miu' : Option Float :=
+          if !descent then st.lastMiu else
+          match st.lastMiu, st.lastT, st.bgx with
+          | some miu, some t, some bg =>
+            if fragileMiu miu t (vsub gy bg) (vsub y b.x) c.minDot then none
+            else some (proxUpdate1 fmaxF c.minDot miu t b.x y bg gy)
+          | _, _, _ => none
+        match st.seq, st.sfx with
+        | some sq0, some sfx =>
+          let sq := sq0.update two y
+          let u1 := upBetter Float.isFinite [] sfx y fy
+          let u2 := upBetter Float.isFinite u1.2.1 u1.2.2 b.y b.fy
+          { st.emit ["outer", gI 1, gL sq.x, gFq] with
+            bgx := some b.gy, miuPred := miu', seq := some (if u2.1 then sq else sq.reset), sfx := some u2.2.2 }
+        | _, _ => { st.emit ["outer", gI 1, "L ?", gFq] with bgx := some b.gy, miuPred := miu', seq := none, sfx := none }
+    | _, _, _ => unknown
+
 def doSolve (s : SolveRec) (st : St) : St :=
   let ok := simplexOK s.alphas && (s.alphas.length != 1 || s.alphas == solve1) && s.alphas.length == s.pairs.length
   -- the analytic path for two rows, replayed unless the quadratic is degenerate (q ~ 0) or the answer sits on a branch point
@@ -288,7 +366,12 @@ def doIter (c : Ctx) (vs : List Float) (st : St) : Option St := do
         | .stop sN => ([gF cs.t, gI sN.toNat, gF cs.t], some cs)
         | .again c' => ([gF cs.t, gI 9, gF c'.t], some c')
       else ([gF cs.t, gIq, gFq], none)
-  pure { st.emit (["iter"] ++ part1 ++ part2.1) with solve := none, cs := part2.2 }
+  -- the proximity parameter handed to the search, predicted by the model of the outer loop
+  let part3 : List String := match st.miuPred with
+    | some m => [gF m]
+    | none => [gFq]
+  pure { st.emit (["iter"] ++ part1 ++ part2.1 ++ part3) with
+    solve := none, cs := part2.2, lastIter := some (y, gy, fy), lastMiu := some miu, miuPred := some miu }
 
 def doEll (c : Ctx) (r : EllRec) (st : St) : St :=
   let st := if st.first && c.atStart then st.emit ["init", gL c.x0, gL (initH c.n c.R).flatten] else st
@@ -305,44 +388,70 @@ def doEll (c : Ctx) (r : EllRec) (st : St) : St :=
           st.emit ["upd", gL [x'], gL [h'], gF (better p.best f')]
         | _, _, _ => st.fail
       else
-        let (x', H') := stepND c.n p.x p.g p.H p.f p.best
+        -- one pass of the modelled loop (`iterND`), driven by the logged oracle answer `(f', g')` of `function.vgrad`
+        let s0 : SN Float := ⟨p.x, p.H, p.f, p.g, p.best, []⟩
+        let gHg := quad p.H p.g
+        let sq0 := absdot p.g (p.H.map (fun row => absdot row p.g))
+        if nearS sq0 gHg c.epsM then st.emit ["upd", "L ?", "L ?", gFq]
+        else
+        let s1 := (iterND c.n p.eps c.epsM Float.isFinite (fun _ => true) (fun _ => (f', r.g)) s0).2
         let nn : Float := Float.ofNat c.n
         let aHg := p.H.map (fun r => absdot r p.g)
-        let gHg := quad p.H p.g
         let a := alphaCut p.f p.best gHg
         let sx := fabs ((1 + nn * a) / (nn + 1)) * maxAbs aHg / Sqrt.sqrt gHg
         let c1 := fabs ((nn * nn) / (nn * nn - 1) * (1 - a * a))
         let c2 := fabs (2 * (1 + nn * a) / (nn + 1) / (1 + a))
         let sH := c1 * (maxAbs (List.flatten p.H) + c2 * (maxAbs aHg * maxAbs aHg) / fabs gHg)
-        st.emit ["upd", gS sx, gL x', gS sH, gL (List.flatten H'), gF (better p.best f')]
+        st.emit ["upd", gS sx, gL s1.x, gS sH, gL (List.flatten s1.H), gF s1.best]
   let sq := absdot r.g (r.H.map (fun row => absdot row r.g))
   { st.emit ["ell", gS sq, gF gHg', gLtS sq gHg' c.epsM] with ell := some r }
 
-/-- `solver.done`: the flags handed over by the solver -/
+def statusOfNat : Nat → Option Status
+  | 0 => some .failed | 1 => some .maxIters | 2 => some .converged | 3 => some .nullStep
+  | 4 => some .descentStep | 5 => some .cuttingPlaneStep | _ => none
+
+/-- `solver.done`: the flags handed over by the solver, and the decision of `solver_t::done` (`doneE`) on them; the logged
+    `iter_ok` (= `std::isfinite` of the oracle's answer) and `state.valid()` are inputs -/
 def doDone (c : Ctx) (ellipsoid : Bool) (vs : List Float) (st : St) : Option St := do
-  let (_iterOk, vs) ← rF vs
-  let (_conv, _) ← rF vs
+  let (iterOk, vs) ← rF vs
+  let (_conv, vs) ← rF vs
+  let (valid, _) ← rF vs
   if ellipsoid then
     match st.ell with
-    | none => pure (st.emit ["done", gBq, gBq])
+    | none => pure { st.emit ["done", gBq, gBq] with lastDone := none }
     | some r =>
       let gHg' := quad r.H r.g
       let sq := absdot r.g (r.H.map (fun row => absdot row r.g))
-      if nearS sq gHg' c.epsM then pure (st.emit ["done", gBq, gBq])
-      else if earlyStop c.epsM gHg' then pure (st.emit ["done", gBq, gB true])
-      -- sqrt(gHg) < eps  <=>  gHg < eps^2 up to the margin
-      else if nearS sq gHg' (r.eps * r.eps) then pure (st.emit ["done", gBq, gBq])
-      else pure (st.emit ["done", gBq, gB (converged r.eps gHg')])
+      let conv : Option Bool :=
+        if nearS sq gHg' c.epsM then none
+        else if earlyStop c.epsM gHg' then some true
+        -- sqrt(gHg) < eps  <=>  gHg < eps^2 up to the margin
+        else if nearS sq gHg' (r.eps * r.eps) then none
+        else some (converged r.eps gHg')
+      match conv with
+      | none => pure { st.emit ["done", gBq, gBq] with lastDone := none }
+      | some cv =>
+        let early := earlyStop c.epsM gHg'
+        pure { st.emit ["done", gBq, gB cv] with
+          lastDone := some (doneE (early || iterOk != 0.0) cv (early || valid != 0.0)) }
   else
     match st.lastStatus with
-    | none => pure (st.emit ["done", gBq, gBq])
+    | none => pure { st.emit ["done", gBq, gBq] with lastDone := none }
     | some k =>
-      let stt : Option Status := match k with
-        | 0 => some .failed | 1 => some .maxIters | 2 => some .converged | 3 => some .nullStep
-        | 4 => some .descentStep | 5 => some .cuttingPlaneStep | _ => none
-      match stt with
+      match statusOfNat k with
       | none => none
-      | some s => pure (st.emit ["done", gB (s != .failed), gB (solverConverged s)])
+      | some s =>
+        let ok := s != .failed
+        pure { st.emit ["done", gB ok, gB (solverConverged s)] with
+          lastDone := some (doneE ok (solverConverged s) (valid != 0.0)) }
+
+/-- `run.end` (pseudo record appended by the harness when the window reaches the end of the run): the status of the returned
+    state is the one the last `solver_t::done` set, `max_iters` when it went on and the budget ended the loop -/
+def doEnd (st : St) : St :=
+  st.emit ["final", match st.lastDone with
+    | some (some s) => gI s.toNat
+    | some none => gI 0
+    | none => gIq]
 
 def step (c : Ctx) (ellipsoid : Bool) (st : St) (r : Rec) : St :=
   if !st.ok then st else
@@ -351,7 +460,7 @@ def step (c : Ctx) (ellipsoid : Bool) (st : St) (r : Rec) : St :=
     | "bundle.append.begin" => do
       let (b, rest) ← decodeBegin c.n r.vals
       guard rest.isEmpty
-      pure { st with begin := some b, kept := none, solve := none }
+      pure { doOuter c b st with begin := some b, kept := none, solve := none }
     | "bundle.append.kept" => do
       let (k, rest) ← decodeES c.n r.vals
       guard rest.isEmpty
@@ -368,9 +477,11 @@ def step (c : Ctx) (ellipsoid : Bool) (st : St) (r : Rec) : St :=
       pure (doSolve s st)
     | "csearch.iter" => doIter c r.vals st
     | "csearch.end" => do
-      let (status, _) ← rN r.vals
-      pure { st with cs := some CState.start, lastStatus := some status, solve := none }
+      let (status, rest) ← rN r.vals
+      let (t, _) ← rF rest
+      pure { st with cs := some CState.start, lastStatus := some status, lastT := some t, solve := none }
     | "solver.done" => doDone c ellipsoid r.vals st
+    | "run.end" => pure (doEnd st)
     | "ellipsoid.iter" => do
       let (e, rest) ← decodeEll c.n r.vals
       guard rest.isEmpty
@@ -397,7 +508,7 @@ def pTrace (ts : Toks) : Option (Float × Float × Nat × List Rec) := do
     <extrapol> <miu0min> <miu0max> <mindotnuv> <wmode> <wfrac> <budget> | <eps0> <epsM> <start> <nrec> <records>` -/
 def handleBundle : Toks → Option String
   | "run" :: ts => do
-    let (_solver, ts) ← pStr ts
+    let (solver, ts) ← pStr ts
     let (n, ts) ← pNat ts
     let (_norm, ts) ← pNat ts
     let (_mu, ts) ← pFloat ts
@@ -413,14 +524,18 @@ def handleBundle : Toks → Option String
     let (m4, ts) ← pFloat ts
     let (interpol, ts) ← pFloat ts
     let (extrapol, ts) ← pFloat ts
-    let (_miu0min, ts) ← pFloat ts
-    let (_miu0max, ts) ← pFloat ts
-    let (_mindot, ts) ← pFloat ts
+    let (miu0min, ts) ← pFloat ts
+    let (miu0max, ts) ← pFloat ts
+    let (mindot, ts) ← pFloat ts
     let (_wmode, ts) ← pNat ts
     let (_wfrac, ts) ← pFloat ts
     let (_budget, ts) ← pNat ts
     let (eps0, epsM, start, recs) ← pTrace ts
-    let c : Ctx := ⟨n, maxSize + 1, eps0, epsM, ⟨m1, m2, m3, m4, interpol, extrapol, eps0⟩, x0, 0.0, start = 0⟩
+    let kind : Option Kind := match solver with
+      | "rqb" => some .rqb | "fpba1" => some .fpba1 | "fpba2" => some .fpba2 | _ => none
+    let c : Ctx := { n := n, capacity := maxSize + 1, eps0 := eps0, epsM := epsM,
+                     P := ⟨m1, m2, m3, m4, interpol, extrapol, eps0⟩, x0 := x0, R := 0.0, atStart := start = 0,
+                     kind := kind, miuLo := miu0min, miuHi := miu0max, minDot := mindot }
     -- at the very beginning of a run no curve search is in progress; a window that starts later starts at a `csearch.end`
     let st0 : St := { cs := if start = 0 then some CState.start else none }
     finish (recs.foldl (step c false) st0)
@@ -442,7 +557,8 @@ def handleEllipsoid : Toks → Option String
     let (_wfrac, ts) ← pFloat ts
     let (_budget, ts) ← pNat ts
     let (eps0, epsM, start, recs) ← pTrace ts
-    let c : Ctx := ⟨n, 0, eps0, epsM, ⟨0, 0, 0, 0, 0, 0, eps0⟩, x0, R, start = 0⟩
+    let c : Ctx := { n := n, capacity := 0, eps0 := eps0, epsM := epsM, P := ⟨0, 0, 0, 0, 0, 0, eps0⟩, x0 := x0, R := R,
+                     atStart := start = 0 }
     let st0 : St := {}
     finish (recs.foldl (step c true) st0)
   | _ => none
